@@ -27,22 +27,29 @@ struct Scale {
     readers: usize,
     offsets: usize,
     big_batch: bool,
+    /// under Miri: allow the occasional 101-member batch (parallel insertion path)
+    miri_big_batches: bool,
 }
 
 fn scale(args: &Args) -> Scale {
     let mut s = scale_of(args);
     if !args.thorough {
         s.max_nodes = s.max_nodes.min(500);
+        if args.get("scale") == Some("miri") {
+            // the quick tier under Miri stays within minutes: no 101-member (rayon) batches, k <= 1000
+            s.max_k = 1000;
+            s.miri_big_batches = false;
+        }
     }
     s
 }
 
 fn scale_of(args: &Args) -> Scale {
     match args.get("scale").unwrap_or("native") {
-        "miri" => Scale { max_nodes: 24, max_cap: 130, max_k: 10_000, ops: 14, readers: 2, offsets: 3, big_batch: false },
-        "asan" => Scale { max_nodes: 500, max_cap: 4096, max_k: 10_000, ops: 60, readers: 4, offsets: 16, big_batch: true },
-        "valgrind" => Scale { max_nodes: 300, max_cap: 4096, max_k: 10_000, ops: 40, readers: 3, offsets: 16, big_batch: true },
-        _ => Scale { max_nodes: 1500, max_cap: 4096, max_k: 10_000, ops: 120, readers: 4, offsets: 16, big_batch: true },
+        "miri" => Scale { max_nodes: 24, max_cap: 130, max_k: 10_000, ops: 14, readers: 2, offsets: 3, big_batch: false, miri_big_batches: true },
+        "asan" => Scale { max_nodes: 500, max_cap: 4096, max_k: 10_000, ops: 60, readers: 4, offsets: 16, big_batch: true, miri_big_batches: true },
+        "valgrind" => Scale { max_nodes: 300, max_cap: 4096, max_k: 10_000, ops: 40, readers: 3, offsets: 16, big_batch: true, miri_big_batches: true },
+        _ => Scale { max_nodes: 1500, max_cap: 4096, max_k: 10_000, ops: 120, readers: 4, offsets: 16, big_batch: true, miri_big_batches: true },
     }
 }
 
@@ -263,7 +270,12 @@ fn index_case(seed: u64, idx: usize, sc: Scale, out: &mut Out) {
     let mut searches = 0u64;
     let mut cancelled_searches = 0u64;
     let mut inserts = 0u64;
+    let t_case = std::time::Instant::now();
     for _step in 0..sc.ops {
+        // workload bound, not a verdict: an interpreted case stops growing after two minutes
+        if cfg!(miri) && t_case.elapsed() > std::time::Duration::from_secs(120) {
+            break;
+        }
         match rng.below(10) {
             0..=3 => {
                 // burst of single inserts, duplicate / extreme ids
@@ -312,7 +324,7 @@ fn index_case(seed: u64, idx: usize, sc: Scale, out: &mut Out) {
                 };
                 let left = target_nodes.saturating_sub(index.len()).max(1);
                 let b = if b <= room { b.min(left) } else if b > 400 { left.min(101) } else { b };
-                let b = if sc.big_batch { b.min(400) } else { b.min(if rng.chance(0.02) { 101 } else { 12 }) };
+                let b = if sc.big_batch { b.min(400) } else { b.min(if sc.miri_big_batches && rng.chance(0.02) { 101 } else { 12 }) };
                 let mut vecs: Vec<Vec<f32>> = (0..b).map(|_| pick_vec(&mut rng)).collect();
                 // a batch with one wrong-dimension member (first, middle or last; shorter or longer) must be
                 // refused as a whole before anything is stored
